@@ -117,7 +117,8 @@ func TestJudgeGolden(t *testing.T) {
 // a stream: its ReadPacket parses the interleaved form of each and returns the
 // same channel and bytes (anchor for buildPacket against the code that ships).
 func TestPacketsRoundTripThroughIpchubReader(t *testing.T) {
-	for i, sp := range []pktSpec{{Ch: 0, Size: 17}, {Ch: 0, Size: maxPkt, Fill: "dollar", Key: true}, {Ch: 2, Size: minAudio}, {Ch: 2, Size: maxAudio, Fill: "frame"}, {Ch: 1}, {Ch: 3}} {
+	for i, sp := range []pktSpec{{Ch: 0, Size: 17}, {Ch: 0, Size: maxPkt, Fill: "dollar", Key: true}, {Ch: 2, Size: minAudio}, {Ch: 2, Size: maxAudio, Fill: "frame"}, {Ch: 1}, {Ch: 3},
+		{Ch: 0, Size: 300, Pad: 1}, {Ch: 0, Size: 300, Pad: 255}, {Ch: 2, Size: 200, Pad: 16}, {Ch: 0, Size: 20, Pad: 255}} {
 		p := buildPacket(sp, uint32(i+1))
 		if len(p.Data) != clampSize(sp.Ch, sp.Size) {
 			t.Fatalf("%+v: %d bytes", sp, len(p.Data))
@@ -133,6 +134,19 @@ func TestPacketsRoundTripThroughIpchubReader(t *testing.T) {
 		if sp.Ch == rtp.ChannelVideo || sp.Ch == rtp.ChannelAudio {
 			if p.SequenceNumber != uint16(i+1) || p.Version != 2 {
 				t.Fatalf("%+v: header %+v", sp, p.Header)
+			}
+			// RFC 3550 §5.1: P bit set, the last octet counts the padding octets (itself included), the rest is zero
+			if sp.Pad > 0 {
+				n := int(p.Data[len(p.Data)-1])
+				want := sp.Pad
+				if sp.Size == 20 {
+					want = 3 // clamped: a 20-byte video packet has room for 3 besides header and a 5-byte NAL
+				}
+				if p.Data[0]&0x20 == 0 || !p.Padding || !back.Padding || n != want || !bytes.Equal(p.Data[len(p.Data)-n:len(p.Data)-1], make([]byte, n-1)) {
+					t.Fatalf("%+v: padding not as RFC 3550 5.1: first octet %#x, count %d, header says %v", sp, p.Data[0], n, p.Padding)
+				}
+			} else if p.Data[0]&0x20 != 0 || p.Padding {
+				t.Fatalf("%+v: P bit set without padding", sp)
 			}
 		}
 	}
